@@ -30,6 +30,10 @@ mod arithmetic;
 mod image;
 mod linalg;
 mod nonlinearity;
+#[cfg(feature = "verif")]
+mod verif;
+#[cfg(feature = "verif")]
+pub use self::verif::{verif_take_trace, verif_trace_enable, VerifProbe};
 
 use crate::numbers::*;
 
@@ -427,6 +431,9 @@ impl Array {
             Some(x) => {
                 let is_tracked: Vec<bool> =
                     self.children.iter().map(|c| c.stop_tracking()).collect();
+
+                #[cfg(feature = "verif")]
+                verif::verif_trace_push(self.verif_node_id(), &delta.values);
 
                 let delta = (*x)(&self.children, &is_tracked, &mut delta);
 
